@@ -30,6 +30,7 @@ Proof.
     unfold updN. destruct (Nat.eqb_spec o' o); subst; auto.
   - intros o'. destruct (U o') as [A1 [B1 _]]. rewrite A1, B1. apply (g_new _ _ _ _ _ G).
   - intros o' H. destruct (U o') as [_ [_ [_ D1]]]. rewrite D1. eapply g_del; eauto.
+  - apply (g_nodup _ _ _ _ _ G).
   - intros o' k Hn K A D. destruct (U o') as [A1 [B1 [C1 D1]]]. rewrite A1 in K. rewrite B1 in A. rewrite C1 in D.
     destruct (g_dels _ _ _ _ _ G o' k Hn K A D) as [H|[o'' [H1 H2]]]; auto.
     right. exists o''. destruct (U o'') as [A2 [_ [_ D2]]]. rewrite A2, D2. auto.
